@@ -235,6 +235,10 @@ def run(unit):
         for ref in ('xs[x + 1]', 'xs[-1]', 'xs[abs(x)]', 'xs[@i + 1]', 'ms[len(xs) - 1].f', 'xs[xs[0]]', 'xs[x * 2]'):
             for use1, use2 in (('%s > 0', 'not %s'), ('not %s', '%s + 1 > 0'), ('%s in {1}', '%s.f > 0'), ('%s = "a"', '%s + 1 > 0')):
                 texts += [f'{use1 % ref} and {use2 % ref}', f'{use2 % ref} and ({use1 % ref} and y = y)', f'{use1 % ref} implies {use2 % ref}']
+        # a bound variable used at two disjoint types, the occurrences spread over nested quantifier scopes
+        for u1, u2 in (('@i > 0', 'not @i'), ('not @i', '@i > 0'), ('@i = "a"', 'xs[@i] > 0'), ('x in [0 to @i]', '@i and p')):
+            texts += [f'forall i in ys: ({u1} and exists j in zs: (@j > 0 and {u2}))', f'forall i in ys: ((exists j in zs: (@j > 0 and {u2})) and {u1})',
+                      f'forall i in ys: ({u1} and forall j in zs: (exists k in ws: (@k > @j and {u2})))', f'exists i in ys: (forall j in [0 to len(zs)]: ({u1} and @j > 0) and {u2})']
         texts += ['x > 0 and x = y and x = "a"', 'x and (x = y) and x > 0', 'not x and x in {y} and len(x) > 0', '1 = "a"', '(x + 1) = "a" or p', 'len(xs) = True']
         for text in texts:
             r.count('evaluations')
